@@ -58,6 +58,29 @@ def gen_dec(rnd, st, aw, depth, levels):
     align = rnd.choice([0, 0, 0, 0, 1, 1, 2, 3])
     if rnd.random() < 0.9:
         align = min(align, max(0, aw - 2))
+    if aw >= 4 and rnd.random() < 0.12:
+        # "staircase": the cursor is aligned once, generously, and then implicit windows of (mostly) growing width
+        # follow - every one of them has to be aligned again from where the previous one ended
+        align = min(align, 1)
+        k = rnd.randint(2, min(aw - 1, 5))
+        pred = Pred(aw, align)
+        ops, pleaves = [{"op": "align_to", "n": k}], []
+        pred.align_to(k)
+        widths = sorted(rnd.randint(1, k) for _ in range(rnd.randint(2, 4)))
+        if rnd.random() < 0.3:
+            rnd.shuffle(widths)
+        for saw in widths:
+            sub = {"t": "leaf", "aw": saw, "uid": st["leaf"], "kind": "iface", "dw": None}
+            st["leaf"] += 1
+            name = None
+            if rnd.random() < 0.5:
+                name = f"w{st['name']}"
+                st["name"] += 1
+            ops.append({"op": "add", "sub": sub, "name": name, "addr": None})
+            at = pred.place(saw, None)
+            if at is not None:
+                pleaves.append((at, saw, sub["uid"]))
+        return {"t": "dec", "aw": aw, "align": align, "ops": ops}, pleaves
     nwin = rnd.choice([0] + [1] * 2 + [2] * 4 + [3] * 5 + [4] * 6)
     pred = Pred(aw, align)
     ops, pleaves = [], []
@@ -158,6 +181,7 @@ class Built:
     def __init__(self, dec, aw):
         self.dec, self.aw = dec, aw
         self.codes = []      # per add() call: OK / TYPEERR / VALERR
+        self.unaligned = [0, 0]   # windows placed off their own span: [with an explicit addr=, by the map itself]
         self.isif = []       # per add() call: [is csr.Interface, data width of the subordinate]
         self.kids = []       # placed: (start, stop, sub_aw, Built | leaf dict, signals-bearing interface, map)
         self.refused = []    # (interface, uid) of leaf interfaces whose add() was refused with ValueError
@@ -229,6 +253,8 @@ def build(cfg):
                 continue
             b.codes.append(OK)
             b.kids.append((r[0], r[1], saw, child, port, mmap))
+            if r[0] % (1 << saw):
+                b.unaligned[0 if op["addr"] is not None else 1] += 1
             if len(b.kids) % 2 == 1:
                 # looking at a half-built decoder (listing its windows, as a log message or an early elaboration
                 # would) must not change what it becomes
@@ -309,6 +335,15 @@ def run_impl(case):
         reported.append([pos, ls, le, info.start, info.end])
     reported += [[pos, ls, le, -1, -1] for (pos, ls, le) in owner.values()]
     meta.append(reported)
+    unal = [0, 0]
+
+    def count(b):
+        unal[0] += b.unaligned[0]; unal[1] += b.unaligned[1]
+        for k in b.kids:
+            if isinstance(k[3], Built):
+                count(k[3])
+    count(root)
+    meta.append(unal)
     bus = root.dec.bus
     # interfaces whose add() was refused are not part of the decoder: they keep talking (non-zero r_data every
     # cycle) and must have no influence on it
@@ -379,7 +414,10 @@ def oracle(case, obs):
     the same cycle; nobody is strobed on an unassigned address; with idle leaves returning 0 the root reads the
     addressed leaf's data."""
     codes, rows, meta = obs
-    if not in_domain(meta):
+    # N2: a window the USER put (addr=) off a multiple of its span is outside the property's domain.  One the
+    # memory map itself placed there (no addr=) is not the user's doing: the oracle applies, and it will find
+    # the decoder routing other addresses to that subordinate than the map reports.
+    if (meta[4][0] > 0) if len(meta) > 4 else not in_domain(meta):
         return []
     uids = leaf_list(meta, [])
     out = []
